@@ -28,6 +28,8 @@ ASSUMPTIONS = [
     "the two reference models are cross-checked against each other on every case where both apply",
 ]
 BUDGET = {"quick": 1500, "thorough": 30000}
+# coverage-guided twins (thorough tier): part name -> executions per shard; see core.cover
+COVER = {"tree-small": 4000, "structured": 3000}
 
 QUERY_COST_LIMIT = 200_000
 EXPANSION_LIMIT = 100_000
